@@ -791,6 +791,7 @@ def check_triple(ctx, tr):
     ctx.count(transitions=1)
     tok2 = b.get_mol2_type()
     if tok2 != tok:
+        ctx.add_note("TA_typings_not_a_fixed_point")
         typing_violation(
             ctx,
             tok,
